@@ -248,3 +248,7 @@ REQUIRED_THEOREMS["C07"] += ["C07_paint_combinatorial", "C07_step_paint", "C07_s
                              "C07_undo_bits_addNode", "C07_note_undo_bits_addNode_needs_absent", "C07_step"]
 REQUIRED_THEOREMS["C08"] += ["C08_meas_step_paint", "C08_meas_paint_invariant", "C08_meas_step_paint_measOK"]
 ASSUMPTIONS["C12"] += ["mapped track_id / lineage_id: the validity check of the real code (geff.validate tracklets/lineages) is opaque; the model carries these columns like any other; the generators produce only valid, non-canonical ids and the oracle claims equality only when the ids are valid by the harness's own reading of the source links"]
+REQUIRED_THEOREMS["C04"] += ["C04_valid_uUpdateSeg", "C04_valid_step", "C04_valid_step_ok", "C04_valid_run", "C04_frame_updateSeg",
+                             "C04_valid_pUpdSeg", "C04_valid_uUpdateAttrs", "C04_valid_step_hist_false"]
+REQUIRED_THEOREMS["C05"] += ["C05_frame_updateSeg"]
+REQUIRED_THEOREMS["C07"] += ["C07_valid_step", "C07_valid_step_all", "C07_shape_step", "C07_valid_reading"]
